@@ -405,10 +405,11 @@ theorem jsonify_renders (v : JV) : numbersOk v = true → Renders (jsonify v) (t
         MembersOk ('"' :: (kt ++ ':' :: ' ' :: (t ++ jsonifyMoreEntries es))) ((k, j) :: toJsonEntries es)) ∧
       (es ≠ [] → MembersOk (jsonifyEntries es) (toJsonEntries es)))
     (motive_4 := fun e => numbersOk e.2 = true → Renders (jsonify e.2) (toJson e.2))
-    ?null ?bool ?num ?str ?list ?ctx ?other ?nil ?cons ?enil ?econs ?pair v
+    ?null ?bool ?num ?nonFinite ?str ?list ?ctx ?other ?nil ?cons ?enil ?econs ?pair v
   case null => intro _; exact renders_null
   case bool => intro b _; cases b; exact renders_false; exact renders_true
   case num => intro t h; simp only [numbersOk] at h; exact renders_num h
+  case nonFinite => intro _; exact renders_null
   case str => intro s _; exact renders_quote s
   case list =>
     intro xs ih h2
